@@ -90,7 +90,7 @@ class Reader:
             self.file_bin = (
                 sglx_file.with_suffix(".bin")
                 if sglx_file.with_suffix(".bin").exists()
-                else None
+                else self.file_bin
             )
         else:
             self.file_bin = sglx_file
